@@ -4,6 +4,7 @@ package main
 // direct top-to-bottom replay with the real library as oracle.
 
 import (
+	"encoding/json"
 	"fmt"
 	"sort"
 	"strings"
@@ -320,6 +321,23 @@ func runC10(c *ctx) error {
 		case ierr != nil:
 			c.res.Fail(core.OracleFailure{What: "every expansion succeeds but the call failed", Input: desc, Got: ierr.Error()})
 		default:
+			// both encoders write what Range shows (renames leave tombstones behind)
+			if p.Env != nil {
+				if jb, jerr := json.Marshal(p.Env); jerr != nil {
+					c.res.Fail(core.OracleFailure{What: "the env block does not marshal after interpolation", Input: desc, Got: jerr.Error()})
+				} else {
+					var back ordered.MapSS
+					if err := json.Unmarshal(jb, &back); err != nil {
+						c.res.Fail(core.OracleFailure{What: "the env block's JSON after interpolation does not decode", Input: desc, Got: string(jb)})
+					} else {
+						var viaJSON vl.OMap
+						back.Range(func(k, v string) error { viaJSON = append(viaJSON, vl.KV{K: k, V: v}); return nil })
+						if vl.Enc(viaJSON) != vl.Enc(after) {
+							c.res.Fail(core.OracleFailure{What: "the env block's JSON after interpolation differs from what Range shows", Input: desc, Got: string(jb), Want: fmt.Sprint(after)})
+						}
+					}
+				}
+			}
 			if vl.Enc(after) != vl.Enc(want) {
 				c.res.Fail(core.OracleFailure{What: "env block differs from the top-to-bottom expansion", Input: desc, Got: fmt.Sprint(after), Want: fmt.Sprint(want)})
 			}
